@@ -289,8 +289,15 @@ def rule_r6(chk, facts):
                 n += 1
                 call = calls[0]
                 cnt = nocast(call[2][2])
+                def same_count(x):
+                    if x == cnt:
+                        return True
+                    if x[0] == 'l':
+                        ds = [nocast(m[3]) for bb, ii, ll, m in f.nodes() if is_assign(m) and m[1] == '=' and strip(m[2]) == x]
+                        return len(ds) == 1 and ds[0] == cnt
+                    return False
                 good = any(a[0] == 'cmp' and a[1] == '!=' and a[2][0] == 'call' and a[2][1] == ('fn', callee_name(call))
-                           and a[3] == cnt for a in atoms(l[1], l[0] == 'T'))
+                           and same_count(a[3]) for a in atoms(l[1], l[0] == 'T'))
                 ln = f.blocks[s_]['term'][1] if f.blocks[s_].get('term') else f.line
                 key = '%s:%s:%s(%s)' % (f.unit.name, f.name, callee_name(call), show(call[2][0]))
                 chk.ob('C07-R6', key, good, f.loc(ln), 'error handler on result != count' if good else
